@@ -109,9 +109,23 @@ def _r1b(ctx):
                   "keeps its initial [])", f.qname, "zero <-> [] at line offset %d" % (z.lineno - f.node.lineno))
     ctx.floor("R1b", "zero-pressure sites in assign_tp_lt", len(zero_sites), 2)
     pp = pm.find("M_p = self._machine_model.average_port_pressure(instruction_data.port_pressure)", h.node)
-    pu = pm.find("instruction_form.port_uops = instruction_data.port_pressure", h.node)
+    def same_container(v):
+        """the entry's micro-op container itself or a type-preserving copy of it (True) / a re-built container (False) /
+        something else (None)"""
+        while isinstance(v, ast.Call) and (pm.call_name(v) or "").split(".")[-1] in ("deepcopy", "copy") and len(v.args) == 1:
+            v = v.args[0]
+        if U(v) == "instruction_data.port_pressure":
+            return True
+        if isinstance(v, ast.Call) and (pm.call_name(v) or "") in ("list", "tuple", "sorted", "set") and v.args \
+                and U(v.args[0]) == "instruction_data.port_pressure":
+            return False        # iterating an alternatives map yields its keys (C15-R3 has the data fact)
+        return None
+    pus = [(n, same_container(C.flow_of(h).subst(b["M_v"]))) for n, b in pm.find("instruction_form.port_uops = M_v", h.node)
+           if U(b["M_v"]) != "[]"]
+    pu = [n for n, v in pus if v is True]
     st = pm.find("instruction_form.port_pressure = %s" % (U(pp[0][1]["M_p"]) if pp else "port_pressure"), h.node)
-    ctx.check(bool(pp) and bool(pu) and bool(st), "R1b", "found entry: pressure = average(entry micro-ops), port_uops = entry micro-ops",
+    ctx.judge(bool(pp) and bool(pu) and bool(st) and all(v is True for _, v in pus), bool(pus) and all(v is not None for _, v in pus),
+              "R1b", "found entry: pressure = average(entry micro-ops), port_uops = entry micro-ops",
               h.where(), "a directly matched entry no longer gets pressure and micro-ops from the same entry field", h.qname,
               "found path agreement")
     fb = [n for n in ast.walk(h.node) if isinstance(n, ast.ExceptHandler)]
